@@ -204,15 +204,15 @@ Proof.
   replace (u32_max <=? j) with false by lia.
   destruct (read_str rest) as [[n r]|] eqn:E; [|exact I].
   destruct (read_str_spec _ _ _ Hok E) as [Hr Hl].
-  destruct (truncated_arraystring_ok 15 n) as [name [-> _]]. cbn [bind].
+  destruct (truncated_arraystring_ok CAP_client_name n) as [name [-> _]]. cbn [bind].
   assert (Hrec : forall r', bytes_ok r' = true -> (length r' <= length r)%nat ->
                  ok_or_err (clients_loop fuel version ri (j + 1) r')).
   { intros r' Hr' Hl'. apply IH; [exact Hr'|lia|lia|lia]. }
   destruct version; cbn [has_extended_player_info has_full_client_flags siv_eqb];
     repeat rd_step;
-    try (destruct (64 <=? j) eqn:E64;
+    try (destruct (MAX_CLIENTS_6_64 <=? j) eqn:E64;
          [apply Hrec; [assumption|lia]
-         |rewrite shl1_ok by lia; cbn [bind]]);
+         |unfold MAX_CLIENTS_6_64 in E64; rewrite shl1_ok by lia; cbn [bind]]);
     (apply ok_or_err_bind; [apply Hrec; [assumption|lia]|intros [cs rv] _; exact I]).
 Qed.
 
@@ -327,7 +327,7 @@ Proof.
   assert (H6 : ok_or_err (parse_response_6 data)).
   { unfold parse_response_6. destruct (length data <? 14)%nat eqn:E; [exact I|].
     apply Nat.ltb_ge in E. destruct data as [|b0 data']; [cbn [length] in E; lia|].
-    destruct (Z.land b0 64 =? 0); [exact I|].
+    destruct (Z.land b0 PACKETFLAG_CONNLESS =? 0); [exact I|].
     rewrite slice_to_ok, slice_from_ok by exact E. cbn [bind].
     repeat match goal with
     | |- ok_or_err (if ?c then _ else _) => destruct c
@@ -372,7 +372,7 @@ Proof.
   assert (H6 : parse_response_6 data = Ok r -> exists n, payload = skipn n data).
   { unfold parse_response_6. destruct (length data <? 14)%nat eqn:E; [discriminate|].
     apply Nat.ltb_ge in E. destruct data as [|b0 data']; [discriminate|].
-    destruct (Z.land b0 64 =? 0); [discriminate|].
+    destruct (Z.land b0 PACKETFLAG_CONNLESS =? 0); [discriminate|].
     rewrite slice_to_ok, slice_from_ok by exact E. cbn [bind].
     repeat match goal with
     | |- (if ?c then _ else _) = _ -> _ => destruct c
